@@ -185,6 +185,32 @@ def run(tier, seed, t0):
             m = imodel.get('icont') or ''
             if not m.startswith('ok ' + csx + '\t'):
                 disagreements.append({'what': 'for_type::<BorshSchemaContainer>() %s vs schema_of ty_container %s' % (csx[:200], m[:200])})
+            # the property itself on BorshSchemaContainer: the containers of the catalogue types, as the
+            # implementation serializes them, decoded with nothing but for_type::<BorshSchemaContainer>()
+            cc = O.parse_container(csx)
+            subj = [(tid, c) for tid, (_, c) in list(conts.items())[:: 1 if tier != 'quick' else 4]]
+            subj = [(tid, c) for tid, c in subj if SO.fits_codec(c)]
+            cenc = run_cases(exe, [case_line('cc%d' % tid, 'cont-enc', '-', '-', O.container_sexp(c)) for tid, c in subj])
+            for tid, c in subj:
+                stats['evaluations'] += 1
+                r = cenc.get('cc%d' % tid) or ''
+                if not r.startswith('ok '):
+                    disagreements.append({'what': 'to_vec(&container) of %s: %s' % (O.container_sexp(c)[:200], r)})
+                    continue
+                why = None
+                try:
+                    got, rest = SO.interp(cc, bytes.fromhex(r[3:]))
+                    if rest:
+                        why = '%d byte(s) left over after decoding with the container' % len(rest)
+                    elif got != container_shape(SO.canonical(c)):
+                        why = 'structure from the container %s differs from the value\'s structure %s' % (SO.show_sv(got)[:300], SO.show_sv(container_shape(SO.canonical(c)))[:300])
+                except SO.NoDecode as e:
+                    why = 'the container cannot decode the bytes (%s)' % e
+                classes['container-self:' + ('ok' if why is None else 'fail')] += 1
+                if why:
+                    failures.append({'class': 'schema-wire', 'key': 'BorshSchemaContainer ' + O.container_sexp(c)[:80],
+                                     'what': 'for_type::<BorshSchemaContainer>() does not describe the bytes of a BorshSchemaContainer value: %s [value %s bytes %s]'
+                                             % (why, O.container_sexp(c), r[3:]), 'container': csx, 'value': O.container_sexp(c), 'bytes': r[3:]})
             continue
         m = imodel.get('i%d' % i) or ''
         if csx == 'panic':
@@ -296,6 +322,40 @@ def run(tier, seed, t0):
 
 
 # ------------------------------------------------------------------ helpers for the derived items
+def container_shape(c):
+    """the structure (in lib/schemaof.py's interp vocabulary) of a BorshSchemaContainer value, from the
+    declarations in /repo/borsh/src/schema.rs read by eye: field and variant names, order, tags"""
+    def st(x):
+        return ('Q', [('P', bytes([b])) for b in x.encode()])
+
+    def u8(n):
+        return ('P', bytes([n]))
+
+    def u64(n):
+        return ('P', n.to_bytes(8, 'little'))
+
+    def dfn(d):
+        k = d[0]
+        if k == 'p':
+            return ('V', 0, 'Primitive', ('U', [u8(d[1])]))
+        if k == 's':
+            return ('V', 1, 'Sequence', ('N', [('length_width', u8(d[1])), ('length_range', ('N', [('start', u64(d[2])), ('end', u64(d[3]))])),
+                                                ('elements', st(d[4]))]))
+        if k == 't':
+            return ('V', 2, 'Tuple', ('N', [('elements', ('Q', [st(e) for e in d[1]]))]))
+        if k == 'e':
+            return ('V', 3, 'Enum', ('N', [('tag_width', u8(d[1])),
+                                             ('variants', ('Q', [('T', [('P', (disc % (1 << 64)).to_bytes(8, 'little')), st(vn), st(dc)]) for disc, vn, dc in d[2]]))]))
+        if k == 'sn':
+            f = ('V', 0, 'NamedFields', ('U', [('Q', [('T', [st(n), st(dc)]) for n, dc in d[1]])]))
+        elif k == 'su':
+            f = ('V', 1, 'UnnamedFields', ('U', [('Q', [st(dc) for dc in d[1]])]))
+        else:
+            f = ('V', 2, 'Empty', ('E',))
+        return ('V', 4, 'Struct', ('N', [('fields', f)]))
+    return ('N', [('declaration', st(c['root'])), ('definitions', ('Q', [('T', [st(n), dfn(d)]) for n, d in c['defs']]))])
+
+
 CONTAINER_TY = ('(prod (struct BorshSchemaContainer (declaration definitions) (0 0)) (text string) (seq btreemap (prod tuple (text string) '
                 '(sum (enum Definition (Primitive Sequence Tuple Enum Struct) (0 1 2 3 4)) '
                 '(prod (variant () (0)) (prim u8)) '
